@@ -470,34 +470,85 @@ Proof.
   - assert (dof * p10Q p * p10Q (- p) < (inject_Z n + 1) * p10Q (- p)) by nra. lra.
 Qed.
 
+(* apply_type: every presentation type except the integer ones becomes f (or stays F) *)
+Lemma apply_type_props : forall f, fm_type f <> Tother ->
+  fm_nzf (apply_type f) = fm_nzf f /\ fm_u_exponent (apply_type f) = fm_u_exponent f /\
+  fm_df_precision (apply_type f) = fm_df_precision f /\ fm_r_precision (apply_type f) = fm_r_precision f /\
+  (fm_type (apply_type f) = Tf \/ fm_type (apply_type f) = TF).
+Proof.
+  intros f Ht. unfold apply_type.
+  destruct (fm_type f) eqn:E; try (exfalso; apply Ht; reflexivity); simpl; rewrite ?E; auto 6.
+Qed.
+
+Lemma round_ureal_fixed : forall x u f,
+  fm_nzf f = true -> (fm_type f = Tf \/ fm_type f = TF) -> 0 < u -> (1 <= rplace u (fm_u_exponent f))%Z ->
+  exists rx ru,
+    round_ureal QOps x u f = Ok (rx, ru) /\
+    r_value _ rx == inject_Z (rplace x (fm_u_exponent f)) * p10Q (fm_u_exponent f) /\
+    r_value _ ru == inject_Z (rplace u (fm_u_exponent f)) * p10Q (fm_u_exponent f).
+Proof.
+  intros x u f Hn Ht Hu HN.
+  assert (Hg : good_type (fm_type f)) by (destruct Ht as [-> | ->]; exact I).
+  destruct (round_ureal_spec x u f Hn Hg Hu HN) as [vx [vu [Hr [_ [Hx Hv]]]]].
+  eexists _, _. split; [exact Hr|]. cbn [r_value].
+  destruct Ht as [Ht | Ht]; rewrite Ht in Hx, Hv; unfold shift_of, as_f_of in Hx, Hv;
+    cbn [is_fF orb] in Hx, Hv; rewrite Z.sub_0_r in Hx, Hv; split; assumption.
+Qed.
+
+(* apply_format (after the fix of C18-K4): for EVERY presentation type f F e E g G n % the
+   numbers are the rounded quantities in the units of the original number *)
 Theorem apply_format_real_spec : forall x u df f,
-  fm_nzf f = true -> good_type (fm_type f) -> 0 < u -> (1 <= rplace u (fm_u_exponent f))%Z ->
+  fm_nzf f = true -> fm_type f <> Tother -> 0 < u -> (1 <= rplace u (fm_u_exponent f))%Z ->
   df <= 100000#1 ->
   let ue := fm_u_exponent f in
-  let t := match fm_type f with Tpct => Tf | t => t end in
-  let E := oomQ (maximumQ x u ue) in let sh := shift_of t ue E in
   exists vx vu d,
     apply_format_real QOps x u df f = Ok (vx, vu, d) /\
-    vx == inject_Z (rplace x ue) * p10Q (ue - sh) /\
-    vu == inject_Z (rplace u ue) * p10Q (ue - sh) /\
+    vx == inject_Z (rplace x ue) * p10Q ue /\
+    vu == inject_Z (rplace u ue) * p10Q ue /\
     d == inject_Z (Qfloor (df * p10Q (fm_df_precision f))) * p10Q (- fm_df_precision f).
 Proof.
-  intros x u df f Hnzf Hgt Hu HN Hdf ue t E sh.
+  intros x u df f Hnzf Ht Hu HN Hdf ue.
   unfold apply_format_real.
-  set (f' := match fm_type f with Tpct => set_type f Tf | _ => f end).
-  assert (Hf' : fm_nzf f' = true /\ fm_u_exponent f' = ue /\ fm_type f' = t /\
-                fm_df_precision f' = fm_df_precision f).
-  { unfold f', t. destruct (fm_type f) eqn:Ht; simpl; rewrite ?Ht; auto. }
-  destruct Hf' as [H1 [H2 [H3 H4]]].
-  assert (Hgt' : good_type (fm_type f')).
-  { rewrite H3. unfold t. destruct (fm_type f); simpl in *; auto. }
+  destruct (apply_type_props f Ht) as [H1 [H2 [H3 [_ H5]]]].
+  set (f' := apply_type f) in *.
+  rewrite Hnzf in H1.
   assert (HN' : (1 <= rplace u (fm_u_exponent f'))%Z) by (rewrite H2; exact HN).
-  destruct (round_ureal_spec x u f' H1 Hgt' Hu HN') as [vx [vu [Hr [_ [Hvx Hvu]]]]].
-  rewrite H2, H3 in Hr, Hvx, Hvu. fold E sh in Hr, Hvx, Hvu.
+  destruct (round_ureal_fixed x u f' H1 H5 Hu HN') as [rx [ru [Hr [Hx Hv]]]].
+  rewrite H2 in Hx, Hv. fold ue in Hx, Hv.
   rewrite Hr. cbn [bind].
   destruct (truncate_dof_spec df (fm_df_precision f') Hdf) as [d [Hd [Hd1 _]]].
-  rewrite Hd. cbn [bind]. rewrite H1. cbn [bind r_value].
-  exists vx, vu, d. rewrite H4 in Hd1. auto.
+  rewrite Hd. cbn [bind]. rewrite H1. cbn [bind].
+  exists (r_value _ rx), (r_value _ ru), d. rewrite H3 in Hd1. auto.
+Qed.
+
+Theorem apply_format_complex_spec : forall xr ur xi ui r df f,
+  fm_nzf f = true -> fm_type f <> Tother -> 0 < ur -> 0 < ui ->
+  (1 <= rplace ur (fm_u_exponent f))%Z -> (1 <= rplace ui (fm_u_exponent f))%Z ->
+  df <= 100000#1 ->
+  let ue := fm_u_exponent f in
+  exists vxr vxi vur vui rr d,
+    apply_format_complex QOps (xr, ur) (xi, ui) r df f = Ok ((vxr, vxi), (vur, vui), rr, d) /\
+    vxr == inject_Z (rplace xr ue) * p10Q ue /\ vur == inject_Z (rplace ur ue) * p10Q ue /\
+    vxi == inject_Z (rplace xi ue) * p10Q ue /\ vui == inject_Z (rplace ui ue) * p10Q ue /\
+    Qabs (rr - r) <= (1#2) * p10Q (- fm_r_precision f) /\
+    d == inject_Z (Qfloor (df * p10Q (fm_df_precision f))) * p10Q (- fm_df_precision f).
+Proof.
+  intros xr ur xi ui r df f Hnzf Ht Hur Hui HNr HNi Hdf ue.
+  unfold apply_format_complex. cbn [fst snd].
+  destruct (apply_type_props f Ht) as [H1 [H2 [H3 [H4 H5]]]].
+  set (f' := apply_type f) in *.
+  rewrite Hnzf in H1.
+  assert (HNr' : (1 <= rplace ur (fm_u_exponent f'))%Z) by (rewrite H2; exact HNr).
+  assert (HNi' : (1 <= rplace ui (fm_u_exponent f'))%Z) by (rewrite H2; exact HNi).
+  destruct (round_ureal_fixed xr ur f' H1 H5 Hur HNr') as [rx [ru [Hr [Hx Hv]]]].
+  destruct (round_ureal_fixed xi ui f' H1 H5 Hui HNi') as [ix [iu [Hi [Hix Hiv]]]].
+  rewrite H2 in Hx, Hv, Hix, Hiv. fold ue in Hx, Hv, Hix, Hiv.
+  rewrite Hr. cbn [bind]. rewrite Hi. cbn [bind].
+  destruct (truncate_dof_spec df (fm_df_precision f') Hdf) as [d [Hd [Hd1 _]]].
+  rewrite Hd. cbn [bind o_round QOps]. rewrite H1. cbn [bind].
+  eexists _, _, _, _, _, d. split; [reflexivity|].
+  rewrite H3 in Hd1. rewrite H4.
+  repeat split; try assumption. apply roundQ_spec.
 Qed.
 
 (* ================= (6) complex numbers: one common place ================= *)
